@@ -121,6 +121,9 @@ func runC19(cfg runCfg, res *Result) error {
 		if err != nil {
 			return err
 		}
+		if strings.Contains(string(b), "\"kind\": \"start-up-directory\"") {
+			return runC19Dir(cfg, res)
+		}
 		var rp struct {
 			Case c19Case `json:"case"`
 		}
@@ -249,6 +252,23 @@ func c19Round(g *Gen, dir string, rc *c19Case, res *Result) (string, c19Case, er
 		return "", cs, fmt.Errorf("SAVE: %v %q", err, r)
 	}
 	srv.Ctl("CRASHCOPY off", 5*time.Second)
+
+	// a neighbour: another emulator of the same process whose persist path lies BELOW this one's directory
+	// and has the same base name (a directory name that sorts after the snapshot files); what it saves
+	// must not show up in, or replace, this emulator's databases at the restart below
+	sib := filepath.Join(filepath.Dir(base), "zz", filepath.Base(base))
+	os.MkdirAll(filepath.Dir(sib), 0o755)
+	p9 := freePort()
+	if r, err := srv.Ctl(fmt.Sprintf("START 9 %d %s", p9, sib), 15*time.Second); err != nil || !strings.HasPrefix(r, "STARTED") {
+		return "", cs, fmt.Errorf("START neighbour: %v %q", err, r)
+	}
+	if nc, err := dial(p9); err == nil {
+		nc.Do(3*time.Second, bs("SET", "neighbour-only", "1")...)
+		nc.Do(3*time.Second, bs("SELECT", "2")...)
+		nc.Do(3*time.Second, bs("RPUSH", "neighbour-list", "x", "y")...)
+		nc.Close()
+	}
+	srv.Ctl("CLOSE 9", 15*time.Second)
 
 	// clean shutdown and restart on the same path
 	if r, err := srv.Ctl("CLOSE 0", 15*time.Second); err != nil || !strings.HasPrefix(r, "CLOSED") {
